@@ -82,6 +82,8 @@ pub struct Shared {
     pub reported: HashMap<usize, Option<Vec<String>>>,
     pub expected_out: HashMap<usize, Option<Vec<u8>>>,
     pub planned_term: HashMap<usize, u8>,
+    /// the discovered deps n2 held for a step when it last judged it in this invocation
+    pub held_deps: HashMap<usize, Vec<String>>,
     pub pending: Option<Pending>,
     /// appends seen while no task record was pending (adoption): (end offset, torn)
     pub orphan: Option<(u64, bool, bool)>,
@@ -113,6 +115,7 @@ impl Shared {
             reported: HashMap::new(),
             expected_out: HashMap::new(),
             planned_term: HashMap::new(),
+            held_deps: HashMap::new(),
             pending: None,
             orphan: None,
             stats: Stats::default(),
@@ -137,6 +140,7 @@ impl Shared {
         self.reported.clear();
         self.expected_out.clear();
         self.planned_term.clear();
+        self.held_deps.clear();
         self.pending = None;
         self.orphan = None;
         self.manifest_opens = 0;
@@ -647,7 +651,11 @@ impl Host for SimHost {
             if let (Some((end, torn, uncertain)), Some(sid)) = (sh.orphan.take(), sid) {
                 let mem = sh.model.mem.clone();
                 if let Some(si) = mem.step_by_id(sid) {
-                    let deps = sh.model.rec_for(&mem, si).map(|r| r.deps.clone()).unwrap_or_default();
+                    // what n2 re-records: the discovered deps it holds for the step (observed when
+                    // the step was judged; the loaded-deps oracle checks them against the model
+                    // whenever the record is certain), minus the step's declared inputs
+                    let held = sh.held_deps.get(&sid).cloned().unwrap_or_else(|| sh.model.rec_for(&mem, si).map(|r| r.deps.clone()).unwrap_or_default());
+                    let deps = Model::deps_to_record(&mem, si, &Some(held));
                     // adopting on top of a record that may or may not be in the log: same doubt
                     let uncertain = uncertain || sh.model.rec_for(&mem, si).map(|r| r.uncertain).unwrap_or(false);
                     if let Some(sig) = sh.model.sig_now(&mem, si, &deps) {
@@ -675,6 +683,7 @@ impl Host for SimHost {
         if cmdline.is_none() {
             return;
         }
+        sh.held_deps.insert(sid, deps.to_vec());
         let mem = sh.model.mem.clone();
         if let Some(si) = mem.step_by_id(sid) {
             if !sh.model.judgeable(&mem, si) || sh.model.orphan_cut.is_some() {
